@@ -21,7 +21,7 @@ ASSUMPTIONS = [
     'the package hash is only required to be identical between two dumps of the same data (its exact preimage is not documented)',
 ]
 BUDGET = {'quick': dict(examples=800, shards=8, seconds=75),
-          'thorough': dict(examples=24000, shards=16, seconds=1500)}
+          'thorough': dict(examples=24000, shards=16, seconds=1200)}
 
 DEFAULTS = {'datapackage-rowcount': 'count_of_rows', 'datapackage-bytes': 'bytes', 'datapackage-hash': 'hash',
             'resource-rowcount': 'count_of_rows', 'resource-bytes': 'bytes', 'resource-hash': 'hash'}
@@ -35,8 +35,10 @@ def cases_(draw):
     alpha = opts['format'] == 'json'
     pkg = draw(gen_dump.dump_package(sort_fields=alpha, max_rows=6))
     # 're-dump': the incoming descriptor already carries counters of an earlier dump (load -> process -> dump)
-    stale = draw(st.integers(0, 4)) == 0
-    return {'pkg': pkg, 'opts': opts, 'stale_counters': stale}
+    stale = gen.rare(draw, 200)
+    # the dumper's validator may be told to drop invalid rows: counters describe what was written
+    drop = gen.rare(draw, 150)
+    return {'pkg': pkg, 'opts': opts, 'stale_counters': stale, 'drop_invalid': drop}
 
 
 def cases(tier):
@@ -60,15 +62,34 @@ def counter_name(opts, key):
 def dump_once(case, ctx):
     pkg, opts = case['pkg'], case['opts']
     out_dir = ctx.tmpdir()
+    if case.get('drop_invalid'):
+        opts = dict(opts, validator_options={'on_error': dataflows.base.schema_validator.drop})
     step, loc = gen_dump.build_dumper(dataflows, opts, out_dir)
     desc = gen.descriptor_of(pkg)
     if case.get('stale_counters'):
         desc.update({'count_of_rows': 1234, 'bytes': 99999, 'hash': 'f' * 32})
         for rd in desc['resources']:
             rd.update({'count_of_rows': 77, 'bytes': 4242, 'hash': 'e' * 32})
+    tables = gen.tables_of(pkg)
+    if case.get('drop_invalid'):
+        tables = invalid_tables(pkg)
     with quiet():
-        dp, stats = Flow(FeedStep(desc, gen.tables_of(pkg)), step).process()
+        dp, stats = Flow(FeedStep(desc, tables), step).process()
     return loc, stats
+
+
+def invalid_tables(pkg):
+    """The fed tables with one schema-violating row appended to every resource that has a non-string field."""
+    out = []
+    for r in pkg:
+        rows = [dict(x) for x in r['rows']]
+        bad = next((f['name'] for f in r['fields'] if f['type'] in ('integer', 'number', 'date', 'boolean', 'year')), None)
+        if bad is not None:
+            row = {f['name']: None for f in r['fields']}
+            row[bad] = 'certainly not valid'
+            rows.insert(len(rows) // 2, row)
+        out.append(rows)
+    return out
 
 
 def check(case, ctx):
@@ -167,6 +188,8 @@ def check(case, ctx):
         classes.append('non-ascii')
     if empty:
         classes.append('empty-resource')
+    if case.get('drop_invalid'):
+        classes.append('validator-drops-a-row')
     info = Info(nontrivial=nt, classes=classes, evals=2)
     if pending:
         pending[0].info = info
